@@ -369,6 +369,9 @@ func overlapOracles(c *hx.Ctx, api string, kase interface{}, strategy int, size,
 			continue
 		}
 		c.Count("overlap-applied")
+		if ctx && i > 0 && titles[i] != "" && strings.Contains(titles[i], r.Prefix) {
+			c.Count("overlap-applied-that-occurs-in-the-section-title") // distribution only
+		}
 		head := ""
 		if ctx && titles[i] != "" {
 			head = "[" + titles[i] + "]\n\n"
@@ -663,7 +666,7 @@ func genOvlCfg(r *hx.Rng) ovlCfg {
 func init() { hx.Register("C13", Run, Replay) }
 
 func Run(c *hx.Ctx) {
-	c.Rep.Rule = "split: texts of 11 kinds (ASCII prose, spaced prose with a space every 50 bytes, CJK without spaces, emoji/ZWJ, combining sequences, long tokens, whitespace only, mixed, Latin-1 mixed, invalid UTF-8, whitespace-edged) x 5 units x limits 1..4000 x dyadic tokens-per-char, length 0..4x the limit; bound: characters/tokens, limit >= 200, generated with a space every 50 bytes and sentence ends placed at the limit; sweep: for hard maxima in characters and tokens (>= 1 token per byte, thorough also < 1), prose with a space every 50 bytes (4 backgrounds: short words, 30-45 byte words, competing punctuation, multi-byte words) in which each kind of break opportunity (sentence end + space, sentence end + closing quote/bracket + space, sentence end + line/paragraph break, clause punctuation, bare newline, paragraph break, plain space, punctuation without whitespace) starts at EVERY byte offset limit-60..limit+3 of the text (first piece) and at every absolute offset that can be limit-60..limit+3 of the remainder after one (thorough: two) pieces, one in eight also through ChunkDocumentWithConfig; doc: 1-3 paragraphs through ChunkDocumentWithConfig; ovl: 1-5 chunk texts x 4 strategies x sizes through ApplyOverlapToChunks; cwo: paragraph documents through ChunkWithOverlapEnabled (character and sentence overlap); non-trivial = more than one piece / at least one overlap applied; deepening round: splitb = SplitToSize with 0-30 caller-supplied boundaries (positions around the byte position of the limit and its multiples, at the edges of the +-25% window, negative, beyond the text; scores of the boundary types and negative ones); fsp = FindSplitPointAt/FindSplitPoint at the maximum or another limit of any unit, with and without boundaries; size = Calculate on every text kind; preset = every preset constructor; docp = ChunkDocumentWithConfig on 1-4 pages (empty pages included, one in six with the default configuration and rag.ChunkDocument); nonspace = the specification function of the conservation theorems on every text kind (invalid UTF-8 included); sent = splitIntoSentences on sentence material (abbreviations, initials, capitals and lower case around the punctuation, characters whose last byte is 0x85/0xA0 before a capital, non-ASCII case) and on every text kind; chunk/cwe = Chunker.Chunk and ChunkWithOverlapEnabled from the paragraphs (blank paragraphs, orphans below MinChunkSize, oversized paragraphs of sentence material), each call repeated on the same chunker; strengthening round 4 (large): one physical line / token / sentence / paragraph of 6 flavours (ordinary sentences, unpunctuated words, one long token, CJK, Latin-1 prose, sentence material) with a length just below, at, just above and up to 2x beyond 4096 and 65536 bytes (thorough: 262144), as the only, first, middle or last paragraph of a chunk or as one line of a multi-line paragraph, enumerated x overlap strategy (character, sentence, paragraph) through ApplyOverlapToChunks; the same texts x 5 units through SplitToSize / ChunkDocumentWithConfig, through splitIntoSentences and through Chunk / ChunkWithOverlapEnabled (paragraph packed by sentences and kept whole)"
+	c.Rep.Rule = "split: texts of 11 kinds (ASCII prose, spaced prose with a space every 50 bytes, CJK without spaces, emoji/ZWJ, combining sequences, long tokens, whitespace only, mixed, Latin-1 mixed, invalid UTF-8, whitespace-edged) x 5 units x limits 1..4000 x dyadic tokens-per-char, length 0..4x the limit; bound: characters/tokens, limit >= 200, generated with a space every 50 bytes and sentence ends placed at the limit; sweep: for hard maxima in characters and tokens (>= 1 token per byte, thorough also < 1), prose with a space every 50 bytes (4 backgrounds: short words, 30-45 byte words, competing punctuation, multi-byte words) in which each kind of break opportunity (sentence end + space, sentence end + closing quote/bracket + space, sentence end + line/paragraph break, clause punctuation, bare newline, paragraph break, plain space, punctuation without whitespace) starts at EVERY byte offset limit-60..limit+3 of the text (first piece) and at every absolute offset that can be limit-60..limit+3 of the remainder after one (thorough: two) pieces, one in eight also through ChunkDocumentWithConfig; doc: 1-3 paragraphs through ChunkDocumentWithConfig; ovl: 1-5 chunk texts x 4 strategies x sizes through ApplyOverlapToChunks; cwo: paragraph documents through ChunkWithOverlapEnabled (character and sentence overlap); non-trivial = more than one piece / at least one overlap applied; deepening round: splitb = SplitToSize with 0-30 caller-supplied boundaries (positions around the byte position of the limit and its multiples, at the edges of the +-25% window, negative, beyond the text; scores of the boundary types and negative ones); fsp = FindSplitPointAt/FindSplitPoint at the maximum or another limit of any unit, with and without boundaries; size = Calculate on every text kind; preset = every preset constructor; docp = ChunkDocumentWithConfig on 1-4 pages (empty pages included, one in six with the default configuration and rag.ChunkDocument); nonspace = the specification function of the conservation theorems on every text kind (invalid UTF-8 included); sent = splitIntoSentences on sentence material (abbreviations, initials, capitals and lower case around the punctuation, characters whose last byte is 0x85/0xA0 before a capital, non-ASCII case) and on every text kind; chunk/cwe = Chunker.Chunk and ChunkWithOverlapEnabled from the paragraphs (blank paragraphs, orphans below MinChunkSize, oversized paragraphs of sentence material), each call repeated on the same chunker; strengthening round 4 (large): one physical line / token / sentence / paragraph of 6 flavours (ordinary sentences, unpunctuated words, one long token, CJK, Latin-1 prose, sentence material) with a length just below, at, just above and up to 2x beyond 4096 and 65536 bytes (thorough: 262144), as the only, first, middle or last paragraph of a chunk or as one line of a multi-line paragraph, enumerated x overlap strategy (character, sentence, paragraph) through ApplyOverlapToChunks; the same texts x 5 units through SplitToSize / ChunkDocumentWithConfig, through splitIntoSentences and through Chunk / ChunkWithOverlapEnabled (paragraph packed by sentences and kept whole); strengthening round 5 (titles): 3-6 chunks that are mostly shorter than the overlap (a heading word, a phrase, one or two sentences, one-line paragraphs) whose section titles echo the text around them (a tail of the previous chunk's own content from one of its last word starts or all of it, the head of the chunk's own content, the previous chunk being nothing but the coming title = running line / TOC entry; bare, numbered, suffixed, bracketed; titles containing brackets and blank lines) x every overlap strategy with section context mostly on through ApplyOverlapToChunks; the same as documents of 3-6 pages with one heading each (levels 1-3, optional preamble page) through Chunk / ChunkWithOverlapEnabled, one quarter with the Chunker's default configuration (non-trivial = overlap enabled with section context)"
 	// hand-picked edge cases first
 	for _, e := range edgeCases() {
 		if !runSplit(c, e.text, e.cfg) {
@@ -771,6 +774,11 @@ func Run(c *hx.Ctx) {
 	if !runLarge(c) {
 		return
 	}
+	// strengthening round 5: section titles that echo the text around them, runs of chunks
+	// shorter than the overlap, documents with headings (titles.go)
+	if !runTitles(c) {
+		return
+	}
 }
 
 type edge struct {
@@ -844,6 +852,8 @@ func Replay(c *hx.Ctx, k map[string]interface{}) {
 		replayApi(c, k, getCfg())
 	case "sent":
 		runSent(c, unhex(fmt.Sprint(k["text"])))
+	case "cwh":
+		replayCwh(c, k)
 	case "docp":
 		var pages [][]string
 		if xs, ok := k["pages"].([]interface{}); ok {
